@@ -9,15 +9,20 @@
 (*    vector or a harness that assembled something else is rejected;       *)
 (*  - requires the frame to decode;                                        *)
 (*  - recomputes every expected value from the codes and checks the        *)
-(*    obligations Applicable(k, c) with FieldCodec!Holds.                  *)
+(*    obligations Applicable(k, c) with FieldCodec!Holds;                  *)
+(*  - requires the second decode of the same frame to give the same text.  *)
 (* A rejected event prints <<"REJECT", line, failing obligations>>.        *)
 (***************************************************************************)
 EXTENDS FieldCodec, TraceBase
 
+(* Decoding is a function of the frame: the harness decodes every frame a  *)
+(* second time, in another order and without the interleaved decodes of    *)
+(* truncated / header-modified frames of the first pass; the two outputs   *)
+(* of the code must be the same text (obligation "context").               *)
+Context(ev) == IF ev.again_same = TRUE THEN <<>> ELSE <<"context">>
 Bad(ev) ==
   IF ev.f # Fields(ev.k, ev.c) \/ ev.ov # Overlay(ev.k, ev.c) THEN <<"binding">>
-  ELSE IF ev.out # "ok" THEN <<"outcome">>
-  ELSE Failing(ev.k, ev.c, ev.v)
+  ELSE (IF ev.out # "ok" THEN <<"outcome">> ELSE Failing(ev.k, ev.c, ev.v)) \o Context(ev)
 
 VARIABLE l
 Init == l = 1
